@@ -1140,10 +1140,23 @@ def c11_check(pid, drv, rep, case, obs, hist):
 
 def run_c11(pid, tier, rng, drv, rep, hist):
     pool = program_pool(rng)
+    if tier == "thorough":
+        sizes = [1, 2, 3, 4, 253, 254, 255, 256, 257, 509, 510, 511, 512, 765, 2293, 2294, 2295, 2296, 2303, 2304, 2305, 4597, 4598, 4599, 6901]
+        for j in range(250):
+            n = rng.choice(sizes) if rng.random() < 0.7 else rng.randrange(1, 12000)
+            org = rng.choice([0, 1, 0x10, 0xFF, 0x100, 0x0E00, 0x7FFF, 0x8000, rng.randrange(0, 0xFFFF - n)])
+            nm = gen_name(rng)
+            src = prog_of_size(nm, n, org, rng.randrange(2))
+            arg = None
+            how = "nam"
+            if rng.random() < 0.3:       # the name comes from --name instead of NAM
+                src = "".join(l + "\n" for l in src.split("\n") if l and not l.startswith("  NAM"))
+                arg, how = nm, "arg"
+            pool.append(("gen%d/%s/org=$%04X/%s" % (n, how, org, nm), src, arg))
     rep.cov["programs"] = len(pool)
     cases = []
     for i, (label, src, arg) in enumerate(pool):
-        sets = SWITCH_SETS if (tier == "thorough" or i % 5 == 0) else [SWITCH_SETS[i % 7], SWITCH_SETS[(i * 3 + 1) % 7], SWITCH_SETS[6 - (i % 3)]]
+        sets = SWITCH_SETS
         seen = []
         for ks in sets:
             if ks in seen:
